@@ -926,6 +926,25 @@ pub fn scale_by_route(mask: u16, route: u8) -> Vec<Op> {
             all.push(last);
             vec![Op::Forbid(all), Op::Allow(members.clone()), Op::Forbid(vec![last])]
         }
+        3 => {
+            // a member forbidden together with the rest, then allowed by a call that names it twice
+            let x = members[0];
+            let mut f: Vec<u8> = non.clone();
+            f.push(x);
+            if members.len() == 1 {
+                // forbidding everything keeps the last note of the argument: x
+                vec![Op::Forbid(f), Op::Allow(vec![x, x])]
+            } else {
+                vec![Op::Forbid(f), Op::Allow(vec![x, x]), Op::Allow(vec![])]
+            }
+        }
+        4 if !non.is_empty() => {
+            // a non-member allowed by a call that names it twice, then forbidden once; duplicates in forbid too
+            let y = non[non.len() / 2];
+            let mut f: Vec<u8> = non.clone();
+            f.extend(non.iter().copied());
+            vec![Op::Forbid(f), Op::Allow(vec![y, y]), Op::Forbid(vec![y])]
+        }
         _ => {
             let mut ops = Vec::new();
             for n in non.iter().rev() {
@@ -949,7 +968,7 @@ fn c08_edit_paths(ctx: &Ctx, masks: &[u16], grid: &[f32]) -> Report {
         while k < masks.len() {
             let mask = masks[k];
             k += shards;
-            for route in 0..3u8 {
+            for route in 0..5u8 {
                 let ops = scale_by_route(mask, route);
                 let mut last: Option<(f32, u8)> = None;
                 let mut j = (mask as usize + route as usize) % 7;
